@@ -2,12 +2,17 @@
 (src/ndn/app_support/light_versec/checker.py Checker.check, compiler.py _fix_signing_references)."""
 import lvs_common as L
 
+from props import lvs_extract
+
 PROP = 'C12'
 TITLE = 'The signing check holds exactly when the schema lets that key sign that packet'
-LEAN_TARGETS = ['NdnProofs.Props.C12']
+LEAN_TARGETS = ['NdnProofs.Props.C12', 'NdnProofs.Props.C12Tables', 'NdnProofs.Props.C11Tables']
 THEOREMS = [
     'Ndn.C12.check_iff', 'Ndn.C12.check_true_sound', 'Ndn.C12.check_total', 'Ndn.C12.check_key_must_match', 'Ndn.C12.check_key_must_match_alone',
     'Ndn.C12.check_ignores_implicit_digest', 'Ndn.C12.check_iff_compiled',
+    # generated tables (lean/NdnGen) pinned to the model
+    'Ndn.C12.check_digest_table', 'Ndn.C12.check_loops_table', 'Ndn.C12.checker_excepts_table', 'Ndn.C12.fix_signing_table',
+    'Ndn.C11.matcher_tests_table', 'Ndn.C11.generate_node_table',
 ]
 PARTIAL = {}
 TRUSTED = [
@@ -17,6 +22,7 @@ TRUSTED = [
     'C12: hypotheses of check_iff: the model passed the loader, value edges deterministic (checked on every compiled model '
     'by the harness), user functions defined and not raising',
     'C12: lark (text -> AST) and the pretty-printer of the schema generator',
+    'C12: lean/NdnGen/C12.lean is regenerated on every run by harness/props/lvs_extract.py (live constants of the imported modules; control-flow facts as normalised source text, ast.unparse) and pinned to the model by the *_table theorems (NdnProofs/Props/C12Tables.lean, closed by evaluation): the component types Checker.check strips from packet and key name (proved to be what stripDigest strips), the contexts of its two _match loops, its signer test and return values, the absence of except clauses in checker.py / validator.py, what _fix_signing_references collects and stores; the tests of _match / _check_cons and of _generate_node from lean/NdnGen/C11.lean, which this check regenerates as well. Trusted: the extractor; a pinned TEXT (a test, a call) ties the model to the source only as far as the doc comment of the theorem reads it correctly - the behaviour itself is still tied by the correspondence run',
 ]
 RULE = ('generated schemas with signing relations (chains incl. a chain of three with the shared pattern constrained at every level, alternatives, redefinitions with different signers, the same named '
         'pattern in packet and key rules, constraints on shared patterns incl. options naming a pattern bound only by the packet, '
@@ -24,6 +30,19 @@ RULE = ('generated schemas with signing relations (chains incl. a chain of three
         'fresh components, some with a trailing implicit digest, a trailing parameters digest (not ignored) or both, or a digest-typed component inside; ALL ordered pairs (packet, key) of these names; the check is run '
         'on the compiler\'s model and on the model after save/load. non-trivial = at least one pair is accepted and one refused; '
         'distinct = distinct (schema, names)')
+
+
+def extract(repo):
+    """lean/NdnGen/C12.lean: tables read from the Light VerSec sources (harness/props/lvs_extract.py).  Checker.check rests
+    on Checker._match / _check_cons and on the signer lists _generate_node collects, whose tables live in
+    lean/NdnGen/C11.lean: that file is regenerated too (identical text unless those functions changed), and the two
+    C11 table theorems about them are obligations of this property as well"""
+    import os
+    import lib
+    text = lvs_extract.generate_c11(repo)
+    with lib.Lock(os.path.join(lib.LEAN, '.build.lock')):
+        lib.write_if_changed(os.path.join(lib.LEAN, 'NdnGen', 'C11.lean'), text)
+    return lvs_extract.generate_c12(repo)
 
 
 def cases(rng, tier):
@@ -199,7 +218,8 @@ LEVEL_TEXT = ('Lean 4 theorems over a hand-written model of Checker.check (diges
               'lists as signer a node matched by the key under the packet\'s bindings with every constraint on the way satisfied '
               '(check_iff, via matchIter = matchTree = denotation); a key matching no node is never accepted; trailing implicit '
               'digests are ignored. Tied to the code on every run by differential execution (all ordered pairs of generated names) '
-              'and by a source-level oracle transcribed from docs/src/lvs/lvs.rst evaluated on the implementation.')
+              'and by a source-level oracle transcribed from docs/src/lvs/lvs.rst evaluated on the implementation.'
+              ' The digest-stripping component types of Checker.check (proved to be what the model strips), the contexts of its two loops, its signer test, the (empty) except clauses of checker.py / validator.py and the signer collection of _fix_signing_references are regenerated from the source on every run (lean/NdnGen/C12.lean) and pinned by theorems closed by evaluation (NdnProofs/Props/C12Tables.lean).')
 LEVEL_NOTE = ('Proof is about the compiled model tree; model=code is sampled; that the tree denotes the source text is C11\'s '
               'compile_correct_wf (compiler model) and is covered here by the source-level oracle.')
 TECHNIQUE = 'Lean 4 proof (simulation of the iterative search, soundness/completeness w.r.t. a path semantics) + model/implementation correspondence check + source-level oracle'
